@@ -5,7 +5,9 @@ cd "$(dirname "$0")"
 export CARGO_NET_OFFLINE=true
 mkdir -p .cache
 python3 -c "import sys; sys.path.insert(0,'lib'); import vf; vf.coq_ensure_makefile()"
-(cd coq && timeout 3000 make -j16)
+# -k: a file that does not compile must not keep the others from being built; every check
+# rebuilds and audits its own Props target anyway
+(cd coq && timeout 3000 make -j16 -k) || echo "[setup] warning: some Coq files failed to build"
 python3 - <<'PY'
 import sys, os
 sys.path.insert(0, "lib"); sys.path.insert(0, ".")
